@@ -67,8 +67,8 @@ void run_lock(Ctx &c, const std::vector<uint32_t> *explicit_choices) {
 		}
 	});
 	size_t ci = 0;
-	unsigned smode = explicit_choices ? 0 : t.pick(5);
-	if(!explicit_choices) c.tagf("sched-mode-%u", smode);
+	unsigned smode = explicit_choices ? 0 : dsched::pick_mode(t);
+	if(!explicit_choices) { c.tagf("sched-mode-%u", smode & 0xff); if(smode & 0x100) c.tag("sched-mode-window-hunting"); }
 	auto tape_choose = dsched::make_chooser(t, smode);
 	auto choose = [&](size_t n) -> uint32_t {
 		if(explicit_choices) return ci < explicit_choices->size() ? (*explicit_choices)[ci++] : 0;
